@@ -362,7 +362,12 @@ func (o *Opts) Matrix() *Node {
 			case 2:
 				a.Set("skip", Bool(false))
 			case 3:
-				a.Set("skip", Str(o.str("adj.skip")))
+				if t.Draw(3, "adj:skip-boolish") == 2 {
+					// a skip REASON that happens to read like a boolean is still a reason (the step is skipped)
+					a.Set("skip", Str([]string{"false", "true", "0", "1", "False", "f", "no"}[t.Draw(7, "adj:skip-boolishv")]))
+				} else {
+					a.Set("skip", Str(o.str("adj.skip")))
+				}
 			}
 			if t.Draw(3, "adj:soft") == 2 {
 				a.Set("soft_fail", Bool(true))
@@ -740,7 +745,13 @@ func (o *Opts) Pipeline() *Node {
 		n = []int{31, 32, 33, 34, 35, 47, 63, 65, 66, 97, 129, 130}[t.Draw(12, "pipe:nlong")]
 		save := o.BigMaps
 		o.BigMaps = false
+		manyUnknown := o.Unknown && t.Draw(4, "pipe:long-unknown") == 3
 		for i := 0; i < n; i++ {
+			if manyUnknown && t.Draw(2, "pipe:long-unknown-step") == 1 {
+				// many steps of unknown kind in one list (each one is a fallback that must be reported)
+				steps.Seq = append(steps.Seq, Str("unknown-"+o.str("unknown.scalar")))
+				continue
+			}
 			if t.Draw(4, "pipe:long-kind") == 3 {
 				steps.Seq = append(steps.Seq, o.Step(o.MaxDepth))
 			} else {
